@@ -31,11 +31,17 @@ Section Statements.
     NoDup tr /\ forall x, In x tr -> In x R /\ ~ In x (heads_of g (canon g R)).
   Proof. exact (bisect_no_repeat g W R). Qed.
 
-  (** Whatever the answers are, bisection ends within the stated fuel (each question marks a
-      new commit of the range; the possibly-bad walk takes exactly its path-count fuel). *)
+  (** Whatever the answers are: bisection ends within the stated fuel (the possibly-bad walk
+      takes exactly its path-count fuel), every answer - good, bad or skip - strictly
+      shrinks the candidate set, and so at most as many questions are asked as there were
+      candidates at the start. *)
   Theorem C37_terminates : forall (ev : nat -> evaluation),
-    exists r, bisect g t R ev = Some r.
-  Proof. exact (bisect_total g W R). Qed.
+    (exists r, bisect g t R ev = Some r) /\
+    (forall st x e, next_commit g t R st = Some x ->
+       length (candidates g t R (mark st x e)) < length (candidates g t R st)) /\
+    (forall tr res, bisect g t R ev = Some (tr, res) ->
+       length tr <= length (candidates g t R (init_state g t R))).
+  Proof. exact (terminates_thm g W R). Qed.
 
   Section Truth.
     Variables isbad skipb : nat -> bool.
